@@ -302,6 +302,8 @@ def judge(case, r, stats: Counter):
         b, nodes, outs, nlist = parse_match(body)
         if len(nlist) != len(nodes):
             stats["dup_nodes_in_match"] += 1
+        else:
+            stats["dup_nodes_free_match"] += 1
         if (b, nodes, outs) in sols:
             return tie, None, None
         if not sols:
@@ -395,6 +397,8 @@ def features_of(case, stats: Counter):
         kinds["multi_output_nodes_pattern"] += 1
     if case["rm"]:
         kinds["remove_nodes"] += 1
+    if p.get("via") == "callable":
+        kinds["via_pattern_function"] += 1
     if case["graph"].get("foreign"):
         kinds["foreign_values"] += 1
     if case["graph"].get("ext"):
@@ -416,6 +420,7 @@ def enum_tables():
         _ENUM["graphs"] = list(G.enum_graphs(3))
         _ENUM["g3"] = [g for g in _ENUM["graphs"] if len(g["nodes"]) == 3]
         _ENUM["g2"] = [g for g in _ENUM["graphs"] if len(g["nodes"]) <= 2]
+        _ENUM["core2"] = list(G.enum_patterns(2, features=False))
     return _ENUM
 
 
@@ -457,6 +462,15 @@ def make_cases(job):
                 for root, nd in enumerate(g["nodes"]):
                     if nd["op"] == want:
                         out.append({"pattern": p, "graph": g, "root": root, "rm": True})
+    elif kind == "enum_full_g3":
+        # core patterns job[1]..job[2] with <=2 node patterns (no feature variants) against every graph with exactly
+        # 3 nodes, root = the last node when its operator equals the pattern root's, remove_nodes=True
+        T = enum_tables()
+        for p in T["core2"][job[1] : job[2]]:
+            want = root_op(p)
+            for g in T["g3"]:
+                if g["nodes"][-1]["op"] == want:
+                    out.append({"pattern": p, "graph": g, "root": len(g["nodes"]) - 1, "rm": True})
     elif kind == "enum_full":
         # patterns job[1]..job[2] of the <=2-node pattern table against every <=2-node graph, every root whose
         # operator equals the pattern root's (all other roots fail the very first test), both remove_nodes
@@ -613,9 +627,9 @@ def main(run: core.Run) -> None:
     for c in corpus:
         c.setdefault("commute", True)
 
-    n_random = run.size(90000, 300000) * scale
+    n_random = run.size(80000, 300000) * scale
     n_big = run.size(5000, 20000) * scale
-    n_enum = run.size(110000, 400000) * scale
+    n_enum = run.size(90000, 400000) * scale
     T = enum_tables()
     jobs = []
     per = 2500
@@ -655,6 +669,18 @@ def main(run: core.Run) -> None:
                 block2_done = hi
         stats["block2_patterns_done"] = block2_done
         stats["block2_patterns_total"] = block2_total
+        # third exhaustive block (thorough): <=2-node core patterns x all 3-node graphs, root = last node
+        block3_total = len(T["core2"])
+        block3_done = 0
+        if exhaustive and block2_done == block2_total:
+            limit3_s = float(os.environ.get("VERIF_C06_BLOCK3_LIMIT_S", "1060"))
+            while block3_done < block3_total and run.elapsed() < limit3_s:
+                hi = min(block3_done + 2 * workers, block3_total)
+                run_jobs(pool, [("enum_full_g3", k, k + 1) for k in range(block3_done, hi)],
+                         stats, problems, findings, known_counts, samples)
+                block3_done = hi
+        stats["block3_patterns_done"] = block3_done
+        stats["block3_patterns_total"] = block3_total
     for sm in samples[:6]:
         run.sample(sm)
 
@@ -724,6 +750,10 @@ def main(run: core.Run) -> None:
                         f"(enumeration order of c06_gen.enum_patterns(3, features=False)) x the same {len(T['g2'])} graphs x roots "
                         "with the pattern root's operator x remove_nodes=True, "
                         + ("enumerated completely" if block2_done == block2_total else "stopped by the time budget")
+                        + f"; third block: the first {block3_done} of {block3_total} core patterns with <=2 node patterns "
+                        f"(enumeration order of c06_gen.enum_patterns(2, features=False)) x all {len(T['g3'])} graphs with "
+                        "exactly 3 nodes x root = the last node when it has the pattern root's operator x remove_nodes=True, "
+                        + ("enumerated completely" if block3_done == block3_total else "stopped by the time budget")
                         if exhaustive else "")
                      + f"; {len(T['pats'])} patterns with <=3 node patterns x {len(T['graphs'])} graphs with <=3 nodes (+ their "
                      f"4-node extensions): sampled ({n_enum}); plus {n_random + n_big} seeded random pattern/graph pairs "
@@ -733,6 +763,17 @@ def main(run: core.Run) -> None:
         raise core.Infra("generator degenerated: >30% of patterns refused by the pattern API")
     if total and stats["real_match"] < 0.03 * total:
         raise core.Infra("generator degenerated: <3% of cases match")
+    required = ["feat_or_backtracking", "feat_or_dispatch", "feat_or_tagvar", "feat_multi_output_nodes_pattern",
+                "feat_multi_output_node", "feat_input_none", "feat_attr_c", "feat_attr_v",
+                "feat_allow_other_attributes_false", "feat_allow_other_inputs", "feat_node_check", "feat_prefix_pattern",
+                "feat_foreign_values", "feat_external_uses", "feat_var_can_match_none", "feat_vp_K", "feat_vp_A",
+                "feat_vp_W", "feat_remove_nodes", "feat_via_pattern_function", "commute_cases", "commute_oracle_variants", "commute_K2",
+                "spec_instances_many", "dup_nodes_free_match", "ctor_refused",
+                "known_C06-D11"]
+    missing = [k for k in required if not stats.get(k)]
+    run.coverage["required_counters_missing"] = missing
+    if missing and not run.replay_path and not run.violations:
+        raise core.Infra("generator degenerated: required coverage counters are zero: " + ", ".join(missing))
 
 
 FINGERPRINTED = [
@@ -760,7 +801,7 @@ def fingerprint_drift():
     return [f"{rel}:{q}" for rel, d in cur.items() for q, h in d.items() if rec.get(rel, {}).get(q) not in (None, h)]
 
 
-FLAG_IDS = ["C06-F1", "C06-F7a", "C06-F3", "C06-F7b", "C06-F8", "C06-F2"]  # order of the digits in L.FLAGS
+FLAG_IDS = ["C06-F1", "C06-F7a", "C06-F3", "C06-F7b", "C06-F8", "C06-F2", "C06-F5", "C06-F5b", "C06-F7c"]  # order of the digits in L.FLAGS
 
 
 def fixed_ids() -> set:
@@ -820,6 +861,18 @@ def fixed_probes():
     }
     if f8 is not None:
         probes["C06-F8"] = (f8, "match", lambda o: "EXC:ValueError" in o)
+    g5 = {"nodes": [{"dom": "", "op": "Neg", "ov": "ov", "inputs": [0], "attrs": [], "outputs": [1]},
+                    {"dom": "", "op": "Abs", "ov": "", "inputs": [0], "attrs": [], "outputs": [2]}],
+          "outputs": [1, 2], "consts": [], "foreign": [], "foreign_kind": "free", "ext": []}
+    p5 = {"cond": True, "inputs": ["x"], "nodes": [_node("Neg", [x]), _node("Abs", [x])],
+          "outputs": [["O", 1, 0], ["O", 0, 0]]}
+    probes["C06-F5"] = (case(p5, g5, 1), "match", lambda o: " M0" in o)
+    orv = ["OR", 4, None, None, None, [["O", 0, 0], ["O", 1, 0]]]
+    p7c = {"cond": True, "inputs": ["x", "y"],
+           "nodes": [_node("Neg", [x]), _node("Abs", [x]), _node("Add", [orv, y])], "outputs": [["O", 2, 0], orv]}
+    probes["C06-F7c"] = (case(p7c, g1, 0, True), "commute", lambda o: o == "ERR:notimplemented")
+    probes["C06-F5b"] = (case(pat([_node("Add", [x, y])], ["x", "y"], ["O", 0, 0]), g1, 0, True), "opid",
+                         lambda o: o == "None")
     return probes
 
 
@@ -827,6 +880,9 @@ def run_probe(case, kind) -> str:
     bp, bg = L.build_pattern(case["pattern"]), L.build_graph(case["graph"])
     if kind == "commute":
         return L.run_real_commute(bp, bg, case["root"], case["rm"], True)
+    if kind == "opid":  # operator identifier of the first node of the first swapped variant
+        vs = bp.graph_pattern.commute()
+        return str(list(vs[1])[0].op_identifier()) if len(vs) > 1 else "no-variant"
     return L.run_real(bp, bg, case["root"], case["rm"])
 
 
